@@ -19,6 +19,7 @@ type vfCountProc struct {
 	st     *vfSrvState
 	yields int
 	slowNS int64 // virtual time every request takes (lets queued requests age past the high watermark)
+	gate   int   // > 0: the handler of this request finishes only after Stop has returned
 }
 
 func (p *vfCountProc) Process(in, out *FProtocol) error {
@@ -31,6 +32,11 @@ func (p *vfCountProc) Process(in, out *FProtocol) error {
 	vsched.Note(fmt.Sprintf("process %d", id))
 	for i := 0; i < p.yields; i++ {
 		vsched.Yield() // the handler takes a while
+	}
+	if p.gate > 0 && id == p.gate {
+		// an active request that outlives Stop: "Active requests will complete and send responses"
+		// after Stop has returned (Stop's own documentation)
+		vsched.WaitUntil(p.st.stopObj, func() bool { return p.st.stopReturned })
 	}
 	if p.slowNS > 0 {
 		vsched.Sleep(p.slowNS)
@@ -48,6 +54,7 @@ type vfSrvState struct {
 	afterStop     map[int]bool // published after Stop returned
 	stopCalled    bool
 	stopReturned  bool
+	stopObj       *vsched.Obj
 	serveReturned bool
 	logAtServeRet int
 	stopErr       error
@@ -55,7 +62,7 @@ type vfSrvState struct {
 }
 
 func vfSrvMake(scn string) (func(), func(*vsched.Exec) (string, *vsched.Violation)) {
-	cfg := map[string]int{"w": 1, "q": 1, "r": 2, "stop": 1, "late": 1, "y": 1, "c": 0, "s": 1, "on": 0, "slow": 0, "junk": 0}
+	cfg := map[string]int{"w": 1, "q": 1, "r": 2, "stop": 1, "late": 1, "y": 1, "c": 0, "s": 1, "on": 0, "slow": 0, "junk": 0, "async": 0, "gate": 0}
 	for _, kv := range strings.Split(scn, ",") {
 		p := strings.SplitN(kv, "=", 2)
 		if len(p) == 2 {
@@ -65,10 +72,14 @@ func vfSrvMake(scn string) (func(), func(*vsched.Exec) (string, *vsched.Violatio
 	var st *vfSrvState
 	body := func() {
 		vfResetGlobals()
-		st = &vfSrvState{invoked: map[int]int{}, routedBefore: map[int]bool{}, afterStop: map[int]bool{}}
+		st = &vfSrvState{invoked: map[int]int{}, routedBefore: map[int]bool{}, afterStop: map[int]bool{}, stopObj: vsched.NewObj("stop-returned")}
 		conn := fakenats.NewConn()
+		// async=1: requests travel to the broker and back before they reach the subscription (what a
+		// real connection does); "received before Stop was called" then means accepted by the broker
+		// for a live subscription before Stop was called, possibly still on its way when Stop runs
+		conn.Async = cfg["async"] == 1
 		st.conn = conn
-		proc := &vfCountProc{st: st, yields: cfg["y"], slowNS: int64(cfg["slow"]) * int64(6e9)}
+		proc := &vfCountProc{st: st, yields: cfg["y"], slowNS: int64(cfg["slow"]) * int64(6e9), gate: cfg["gate"]}
 		pf := NewFProtocolFactory(thrift.NewTBinaryProtocolFactoryConf(nil))
 		// s subjects; on=0 sends every request to the first, on=1 to the last, on=2 alternates
 		subjects := []string{"svc", "svc2", "svc3"}[:cfg["s"]]
@@ -135,6 +146,7 @@ func vfSrvMake(scn string) (func(), func(*vsched.Exec) (string, *vsched.Violatio
 			st.stopCalled = true
 			vsched.Note("Stop called")
 			st.stopErr = srv.Stop()
+			st.stopObj.Write()
 			st.stopReturned = true
 			vsched.Note("Stop returned")
 			for i := cfg["stop"] + 1; i <= cfg["stop"]+cfg["late"]; i++ {
@@ -271,14 +283,20 @@ func init() {
 			out = append(out, "w=1,q=4,r=4,stop=4,late=0,y=0,slow=1,c=0", "w=2,q=4,r=5,stop=5,late=0,y=0,slow=1,c=0", "w=1,q=1,r=4,stop=4,late=0,y=0,slow=1,c=0")
 			// undersized requests first (as many as there are workers, and one more)
 			out = append(out, "w=1,q=1,r=2,stop=2,late=0,y=1,junk=1,c=0", "w=2,q=2,r=3,stop=3,late=0,y=1,junk=2,c=0", "w=1,q=0,r=3,stop=3,late=0,y=1,junk=2,c=0")
+			// a request whose handler finishes only after Stop has returned (the backlog fits into
+			// workers + queue, so the drain inside Stop does not depend on that handler)
+			out = append(out, "w=1,q=1,r=2,stop=2,late=0,y=0,gate=1,c=0", "w=2,q=0,r=2,stop=2,late=1,y=0,gate=1,c=0", "w=2,q=2,r=3,stop=3,late=0,y=0,gate=2,c=0")
+			// requests still on their way through the network when Stop is called
+			out = append(out, "w=1,q=1,r=2,stop=2,late=1,y=1,async=1,c=0", "w=1,q=0,r=2,stop=1,late=1,y=0,async=1,c=0", "w=2,q=1,r=2,stop=2,late=0,y=0,async=1,c=0")
 			if tier == "thorough" {
+				out = append(out, "w=1,q=0,r=3,stop=3,late=1,y=1,async=1,c=0", "w=1,q=1,r=2,stop=2,late=0,y=1,s=2,on=2,async=1,c=0")
 				out = append(out, "w=2,q=1,r=3,stop=2,late=1,y=1,junk=3,c=0", "w=1,q=2,r=3,stop=3,late=0,y=0,junk=3,c=0")
 			}
 			return out
 		},
 		Make: vfSrvMake,
 		Bound: func(tier, scn string) (int, bool) {
-			if strings.Contains(scn, "slow=1") {
+			if strings.Contains(scn, "slow=1") || strings.Contains(scn, "async=1") {
 				return 1, true
 			}
 			heavy := !strings.HasSuffix(scn, "c=0") || strings.HasPrefix(scn, "w=2") || strings.Contains(scn, "s=2")
